@@ -24,6 +24,7 @@ MANIFEST = {
             "Cases where the own model and PyDSDL's codec disagree are not judged and make the run inconclusive.",
 }
 MANIFEST["text"] += ' The coverage corpus also holds types whose offsets share smallest and largest element but differ in alignment, arrays of 64 bytes and more that start off a byte boundary after non-zero bits, and the C option enable_override_variable_array_capacity is one of the code bases.'
+MANIFEST["text"] += ' Hostile values carry invalid tags in nested unions too; a union with more than 256 options (16-bit tag) runs as a small set of its own for C, C++14 and Python.'
 
 
 def judge_ser(ctx, base, t, label, v, vec, res, witness):
